@@ -16,7 +16,7 @@ if not hasattr(PF, "newton_raphson"):
     import importlib
     PF = importlib.import_module("pandapipes.pipeflow")
 
-TOLS = {"tol_m": 1e-5, "tol_p": 1e-5, "tol_T": 1e-3, "tol_res": 1e-3}
+TOLS = {"tol_m": 1e-5, "tol_p": 4e-5, "tol_T": 1e-3, "tol_res": 2e-3}   # pairwise distinct: a swapped tolerance list is visible
 
 # per stage: the unknown vectors the stage's linearisation returns (name, pit, column, tolerance key, filtered?)
 STAGES = {
